@@ -908,19 +908,36 @@ Proof.
   destruct (limit_exact _ _ _ _ _ _ _ _ Hl Hr) as (H1 & H2 & _ & H4 & _). auto.
 Qed.
 
-Theorem too_large_is_413_partial k clf bs :
-  k <> Fastcgi -> consumer_status k clf (Some TooLarge) bs = 413.
-Proof. destruct k; [reflexivity | reflexivity | congruence]. Qed.
+Theorem too_large_is_413 k clf bs : consumer_status k clf (Some TooLarge) bs = 413.
+Proof. destruct k; reflexivity. Qed.
 
-Theorem too_large_is_413_refuted :
-  exists k clf bs, bs = 200 /\ consumer_status k clf (Some TooLarge) bs <> 413.
-Proof. exists Fastcgi, true, 200. split; [reflexivity|]. cbn. lia. Qed.
-
-Theorem too_large_status_table k clf bs :
-  consumer_status k clf (Some TooLarge) bs = 413 <-> k <> Fastcgi \/ bs = 413.
+Theorem too_large_status_table k clf e bs :
+  consumer_status k clf e bs = 413 <-> e = Some TooLarge \/ bs = 413.
 Proof.
-  destruct k, clf; cbn; split; intros H; try lia; try tauto;
-    try (left; discriminate); try (destruct H as [?|?]; [congruence | lia]).
+  destruct e as [[| |]|]; cbn.
+  - split; [intros H; right; exact H | intros [H|H]; [discriminate | exact H]].
+  - destruct k; split; auto.
+  - split; [intros H; right; exact H | intros [H|H]; [discriminate | exact H]].
+  - split; [intros H; right; exact H | intros [H|H]; [discriminate | exact H]].
+Qed.
+
+(* end to end: a consumer that reads the limited body to the end answers 413 exactly for the bodies
+   over the limit, having received exactly the first [limit] bytes; otherwise it has the whole body
+   and relays the backend's own status *)
+Theorem upload_status limit (body : list N) script eofd bufs k clf bs d e :
+  0 <= limit ->
+  (forall m, In m bufs -> (1 <= m)%nat) -> (forall j, In j script -> (1 <= j)%nat) ->
+  (length body + 2 <= length bufs)%nat ->
+  consumer_reads limit body script eofd bufs = (d, e) ->
+  (limit < Z.of_nat (length body) -> d = firstn (Z.to_nat limit) body /\ consumer_status k clf e bs = 413) /\
+  (Z.of_nat (length body) <= limit -> d = body /\ consumer_status k clf e bs = bs).
+Proof.
+  unfold consumer_reads. intros Hl Hb Hs Hlen H.
+  destruct (read_all (mbr_init limit body script eofd) bufs) as [[d0 e0] s0] eqn:Hr.
+  injection H as <- <-.
+  destruct (limit_complete _ _ _ _ _ _ _ _ Hl Hb Hs Hlen Hr) as [Hin Hover]. split.
+  - intros Hlt. destruct (Hover Hlt) as [-> ->]. split; [reflexivity | apply too_large_is_413].
+  - intros Hle. destruct (Hin Hle) as [-> ->]. split; reflexivity.
 Qed.
 
 (* ======================================================================================== *)
